@@ -52,6 +52,14 @@ def handle (op : String) (args impl : List String) : Option Out :=
         | .err c => cmp s!"ab_ndarrw.{kind}.{c}" ["err", c] impl
         | _ => cmp s!"ab_ndarrw.{kind}.ok" ["ok", if kind == "seti" then "set" else "got"] impl)
       | _, _ => .malformed "ab_ndarrw args")
+  -- data of a reference / feature asked by name or id: answered for the linked array, refused (`invalid_argument`) for an array that
+  -- is not linked (never, or not any more), an unknown name, the empty string; the list form of a multi-tag answers an empty list
+  | "ab_tagname", [kind, which] =>
+    let n := if which == "empty" then 1 else 2
+    let c := if which == "ref" then "ok" else "StdInvalidArgument"
+    let exp := if kind == "T" then List.replicate (2 * n) c
+      else (List.replicate n [c, "ok"]).flatten ++ List.replicate n c
+    some (cmp s!"ab_tagname.{kind}.{which}" ("ok" :: exp) impl)
   -- comparing with an uninitialised entity is refused (there is nothing to compare with); with itself: equal
   | "ab_compare", [kind] => some (cmp s!"ab_compare.{kind}" ["ok", "UninitializedEntity", "0"] impl)
   -- one reference, one feature: index 0 is answered, every other index is refused with OutOfBounds — through every entry point
